@@ -766,8 +766,48 @@ class Repo(object):
                 kind, m, obj = self.resolve(mod, expr.value.id)
                 if kind == 'module' and m is not None:
                     return self.fold(ast.Name(id=expr.attr, ctx=ast.Load()), m, None, depth + 1, sym)
+                if kind == 'class' and m is not None and not m.external:
+                    # Namespace.CONST: a class-level constant of a class of the tree that nothing in the tree stores to
+                    owner, val = self.class_attr(obj, expr.attr)
+                    if owner is not None and isinstance(val, ast.expr) and not self._class_attr_stored(obj.name, expr.attr):
+                        return self.fold(val, owner.mod, None, depth + 1, sym)
             raise Unfoldable('attr')
         raise Unfoldable(type(expr).__name__)
+
+    def _class_attr_stored(self, cls_name, attr):
+        """Can ``<class object>.attr`` be assigned / deleted after the class body ran?  Looked for over the analysed package:
+        an attribute store (or ``setattr`` / ``delattr``, also under a computed name) whose receiver may be the class
+        object itself -- the class name, ``cls``, ``type(x)``, ``x.__class__``.  (Stores through an instance create an
+        instance attribute and leave the class attribute alone.)"""
+        cache = self.__dict__.get('_cls_attr_stores')
+        if cache is None:
+            cache = set()
+
+            def class_like(e):
+                if isinstance(e, ast.Name):
+                    return e.id
+                if isinstance(e, ast.Call) and isinstance(e.func, ast.Name) and e.func.id == 'type':
+                    return '*'
+                if isinstance(e, ast.Attribute) and e.attr == '__class__':
+                    return '*'
+                return None
+            for m in self.all_internal_modules():
+                for n in ast.walk(m.tree):
+                    if isinstance(n, ast.Attribute) and isinstance(n.ctx, (ast.Store, ast.Del)):
+                        r = class_like(n.value)
+                        if r is not None:
+                            cache.add((r, n.attr))
+                    elif isinstance(n, ast.Call) and isinstance(n.func, ast.Name) and n.func.id in ('setattr', 'delattr') and len(n.args) >= 2:
+                        r = class_like(n.args[0])
+                        a = n.args[1]
+                        if r is not None:
+                            cache.add((r, a.value if isinstance(a, ast.Constant) and isinstance(a.value, str) else '*'))
+            self._cls_attr_stores = cache
+        for recv in (cls_name, 'cls', '*'):
+            if (recv, attr) in cache or (recv, '*') in cache:
+                # ``self`` / other instance names are in the table too (any plain name): only these receivers count
+                return True
+        return False
 
     def _fold_name(self, expr, mod, depth, sym):
         kind, m, obj = self.resolve(mod, expr.id)
